@@ -419,7 +419,7 @@ func runC02(p *kit.Program, r *kit.Report) {
 		for _, acc := range p.FieldAccesses(keyFld) {
 			n++
 			top := kit.TopLevel(acc.Fn)
-			okAcc := cx.isSKMethod(top) || len(kit.CallsTo(top, "golang.org/x/crypto/hkdf", "", "New")) > 0
+			okAcc := cx.isSKMethod(top) || c02IsDerivation(p, top, 0)
 			if !okAcc {
 				r.Violation("C02.R5", fmt.Sprintf("%s accesses key", kit.FuncName(acc.Fn)), p.Pos(acc.Instr.Pos()), "the session key is touched outside the SessionKey methods and the derivation constructor")
 			}
@@ -596,4 +596,51 @@ func c02R6(p *kit.Program, r *kit.Report) {
 				"the stored ephemeral private key ("+what+") is not zeroed in place before the session key is derived: a duplicated handshake reply re-derives the same key with send/receive counters reset to zero, so nonces are reused under one key")
 		}
 	}
+}
+
+// c02IsDerivation: fn is the key-derivation constructor (calls hkdf.New) or an unexported helper
+// of internal/crypto all of whose static callers are (two levels).
+func c02IsDerivation(p *kit.Program, fn *ssa.Function, depth int) bool {
+	if kit.FuncPkgPath(fn) != kit.PkgPath("internal/crypto") {
+		return false
+	}
+	if len(kit.CallsToDeep(fn, "golang.org/x/crypto/hkdf", "", "New")) > 0 {
+		return true
+	}
+	// the constructor role: the function allocates the SessionKey it fills
+	alloc := false
+	kit.Instrs(fn, func(in ssa.Instruction) {
+		if a, ok := in.(*ssa.Alloc); ok {
+			if pt, ok := a.Type().(*types.Pointer); ok {
+				if n, ok := pt.Elem().(*types.Named); ok && n.Obj().Name() == "SessionKey" && n.Obj().Pkg() != nil && n.Obj().Pkg().Path() == kit.PkgPath("internal/crypto") {
+					alloc = true
+				}
+			}
+		}
+	})
+	if alloc {
+		return true
+	}
+	if depth >= 2 {
+		return false
+	}
+	callers := p.StaticCallers(fn)
+	if len(callers) == 0 {
+		return false
+	}
+	for _, c := range callers {
+		if !c02IsDerivation(p, kit.TopLevel(c.Parent()), depth+1) {
+			// a helper shared with a sibling helper of the constructor (salt builder + expander)
+			sib := false
+			for _, cc := range p.StaticCallers(kit.TopLevel(c.Parent())) {
+				if c02IsDerivation(p, kit.TopLevel(cc.Parent()), depth+1) {
+					sib = true
+				}
+			}
+			if !sib {
+				return false
+			}
+		}
+	}
+	return true
 }
